@@ -1385,10 +1385,14 @@ fn arb_init() -> impl Strategy<Value = Vec<InitFd>> {
         1 => Just(InitMode::ReadWrite),
         1 => Just(InitMode::DupStdout),
     ];
-    prop::collection::vec((3u8..10, mode), 0..4).prop_map(|v| {
+    let some = prop::collection::vec((3u8..10, mode.clone()), 0..4).prop_map(|v| {
         let mut seen = BTreeSet::new();
-        v.into_iter().filter(|(fd, _)| seen.insert(*fd)).map(|(fd, mode)| InitFd { fd, mode }).collect()
-    })
+        v.into_iter().filter(|(fd, _)| seen.insert(*fd)).map(|(fd, mode)| InitFd { fd, mode }).collect::<Vec<InitFd>>()
+    });
+    // every descriptor below 10 in use: whatever the shell opens for itself is at 10 or above from
+    // the start (no move), and must still be close-on-exec and out of the script's reach
+    let full = prop::collection::vec(mode, 7).prop_map(|m| m.into_iter().enumerate().map(|(i, mode)| InitFd { fd: 3 + i as u8, mode }).collect::<Vec<InitFd>>());
+    prop_oneof![8 => some, 1 => full]
 }
 
 fn arb_target() -> impl Strategy<Value = Option<u8>> {
